@@ -515,6 +515,8 @@ def run_check(prop, tier, seed, obligations, ctx, level, functions, assumptions,
         cov["traces_validated_against_impl"] = sum(1 for r in results if r.reproduced)
     if extra_cov:
         cov.update(extra_cov)
+    if getattr(ctx, "extra_cov", None):
+        cov.update(ctx.extra_cov)
     ev = {"property_id": prop, "tier": tier, "seed": seed, "level": level, "coverage": cov,
           "assumptions": assumptions, "wall_s": round(wall, 1), "violations": len(violations),
           "known_findings_hit": known_lines, "proof_degraded": [o.name for o, _ in degraded],
